@@ -161,6 +161,8 @@ fn shrink_display(cx: &mut Ctx, start: Case) {
     push(&|k| k.init_levels = 3);
     push(&|k| k.clock_all_methods = true);
     push(&|k| k.latch_partial = false);
+    push(&|k| k.by_ref = false);
+    push(&|k| k.builder_order = 0);
     push(&|k| k.orient.mirrored = false);
     if c.config.w == c.config.h {
         push(&|k| k.orient.rot = 0);
@@ -197,6 +199,12 @@ fn shrink_display(cx: &mut Ctx, start: Case) {
         }
         if k.latch_partial != c.config.latch_partial {
             cand.config.latch_partial = k.latch_partial;
+        }
+        if k.by_ref != c.config.by_ref {
+            cand.config.by_ref = k.by_ref;
+        }
+        if k.builder_order != c.config.builder_order {
+            cand.config.builder_order = k.builder_order;
         }
         if k.orient != c.config.orient {
             cand.config.orient = k.orient;
